@@ -214,7 +214,7 @@ def beforeErr (s : String) : String := (s.splitOn " err=").headD ""
 
 structure Section where
   mode : Nat
-  refs : List (String × String)
+  refs : List (String × String × String)   -- full / without source info / canonical wire form
   entries : List (String × String × String)   -- (A|C, assignment, digests)
 
 def parseKV (pfx : String) (w : String) : Option String :=
@@ -226,9 +226,10 @@ def parseEntries (tag : String) (s : String) : List (String × String × String)
     | [a, d] => some (tag, a, d)
     | _ => some (tag, ent, "MALFORMED"))
 
-def parseRefs (s : String) : Option (List (String × String)) :=
+def parseRefs (s : String) : Option (List (String × String × String)) :=
   (s.splitOn ",").mapM (fun r => match r.splitOn "/" with
-    | [a, b] => some (a, b)
+    | [a, b] => some (a, b, a)
+    | [a, b, c] => some (a, b, c)
     | _ => none)
 
 /-- words after ` ~ `: `M<mode> ref=… A=… C=…` sections followed by `S=…` -/
@@ -251,8 +252,10 @@ def parseSections : List String → Option (List Section × String)
 /-- expected digest of file `i` supplied in form `f` under source-info mode `mode`:
     the all-source result; for an unlinked proto WITHOUT source info the source info part is
     necessarily absent (there is no source to compute it from). -/
-def expectedDigest (mode : Nat) (form : Char) (r : String × String) : String :=
-  if form == 'p' && mode != 0 then r.2 else r.1
+def expectedDigest (mode : Nat) (form : Char) (r : String × String × String) : String :=
+  if form == 'p' && mode != 0 then r.2.1
+  else if form == 'B' then r.2.2   -- a proto loaded from its wire encoding is compared in canonical wire form
+  else r.1
 
 def checkEntry (what : String) (sec : Section) (e : String × String × String) : Option String :=
   let (tag, asg, ds) := e
@@ -263,7 +266,7 @@ def checkEntry (what : String) (sec : Section) (e : String × String × String) 
   else if forms.length != sec.refs.length || got.length != sec.refs.length then
     some s!"fails {what}-malformed kind={tag} mode={sec.mode} asg={asg}"
   else
-    let rec go (i : Nat) : List Char → List String → List (String × String) → Option String
+    let rec go (i : Nat) : List Char → List String → List (String × String × String) → Option String
       | f :: fs, g :: gs, r :: rs =>
         if g == expectedDigest sec.mode f r then go (i + 1) fs gs rs
         else some s!"fails {what}-disagree kind={tag} mode={sec.mode} asg={asg} file={i} form={f} got={g} want={expectedDigest sec.mode f r}"
